@@ -13,10 +13,10 @@ def el(tag, text, **attrs):
     return "<%s%s>%s</%s>" % (tag, a, text, tag)
 
 
-def document(nodes, port="Device"):
+def document(nodes, port="Device", port_swap=False):
     body = "".join(nodes)
     if port:
-        body += '<Port Name="%s"></Port>' % port
+        body += '<Port Name="%s">%s</Port>' % (port, "<SwapEndianess>Yes</SwapEndianess>" if port_swap else "")
     return HEADER + body + "</RegisterDescription>"
 
 
